@@ -168,6 +168,16 @@ def gen_C16(tier, rng):
                     ins.append(("fromarrays", order))
                     cases.append(case("ragged", ins, "refuse:ragged"))
     cases.append(case("empty_nest", [("fromarrays", [])], "refuse:empty"))
+    # rows that share one buffer: clones nest fine, reshaped views of other dimensions are refused
+    for s in all_shapes(3, 3):
+        n = prod(s)
+        alts = [t for t in all_shapes(3, 3) if prod(t) == n and t != s]
+        ins = [("leaf", False, s, iota(n, 1.0)), ("clone", 0), ("fromarrays", [0, 1])]
+        cases.append(case("nest_clones", ins, "nested:shared"))
+        for t in alts[:3]:
+            order = [0, 1] if len(cases) % 2 else [1, 0]
+            cases.append(case("nest_view", [("leaf", False, s, iota(n, 1.0)), ("op", ("reshape", t), [0]),
+                                            ("fromarrays", order)], "refuse:ragged_shared"))
     # equality: dimensions and values only
     for s in shapes:
         n = prod(s)
@@ -593,6 +603,12 @@ def gen_C07(tier, rng):
         ins += [("leaf", False, s, big), ("op", ("ln",), [3]), ("op", ("recip",), [3]), ("op", ("powf", 0.5), [3]),
                 ("op", ("powf", -1.0), [3])]
         cases.append(case("extreme", ins, "extreme_values", rtol=1e-6))
+    # whole-valued exponents far beyond any table: parity decides the sign for a negative base
+    for e in (4294967296.0, 4294967297.0, -4294967296.0, 2147483648.0, 2147483649.0, 1e300, 9007199254740993.0,
+              65536.0, 65537.0):
+        bases = [1.0, -1.0, 1.0 + 1e-10, 1.0 - 1e-10, -(1.0 + 1e-10), 0.5, -0.5, 2.0, -2.0]
+        cases.append(case("pow_whole", [("leaf", False, [len(bases)], bases), ("op", ("powf", e), [0])],
+                          "extreme_values", rtol=1e-5))
     # ranks 5-6 and dimensions up to 9 (beyond the exhaustive scope)
     for _ in range(40 if tier == "quick" else 500):
         while True:
@@ -896,8 +912,9 @@ def gen_C02(tier, rng):
             if k > 0:
                 cases.append(single_op_case(rng, ("sum", k), [(s, rvals(rng, n, True))], "sum:k%d" % k))
         for t in factorizations(n)[:6]:
-            if t != s:
-                cases.append(single_op_case(rng, ("reshape", t), [(s, rvals(rng, n, True))], "reshape"))
+            cases.append(single_op_case(rng, ("reshape", t), [(s, rvals(rng, n, True))],
+                                        "reshape" if t != s else "reshape:same_dims"))
+        cases.append(single_op_case(rng, ("reshape", list(s)), [(s, rvals(rng, n, True))], "reshape:same_dims"))
     # matmul: sizes x flags x leading x additive term (thinned grid)
     k = 0
     sizes = list(itertools.product((1, 2, 3), repeat=3))
@@ -2111,6 +2128,18 @@ def model_case(rng, tier):
         ins.append(("probe", fi))
         meta["iters"].append({"x": x, "xd": in_dims, "t": t, "forward": fi, "loss": bi, "params_after": pi,
                               "double": double, "input": xi})
+        # a prediction / validation pass between training steps: forward without backward; once the model
+        # has moved on (the next forward), that batch must be sole owner of its buffer again
+        if meta.get("val") is not None and rng.random() < 0.7:
+            ins.append(("takevec", meta["val"]))
+            meta["val"] = None
+        if rng.random() < 0.2 and meta.get("val") is None:
+            vb = rng.choice(batches) if vary else fixed
+            vd = vb + feat
+            ins.append(("leaf", False, vd, [rng.uniform(-1, 1) for _ in range(prod(vd))]))
+            meta["val"] = len(ins) - 1
+            ins.append(("forward", meta["val"]))
+            ins.append(("drop", len(ins) - 1))
         # C18: once the model has moved on, the previous input is sole owner of its buffer again
         if it > 0 and rng.random() < 0.5:
             prev = meta["iters"][it - 1]["input"]
